@@ -371,15 +371,22 @@ def Ev.visible : Ev → Bool
   | .hidden _ => false
   | _ => true
 
+/-- the test in `LineRows::next_row` that decides whether a computed row is swallowed (as fixed):
+`self.row.tombstone && !(self.row.end_sequence && self.in_sequence)` — tombstoned rows are
+skipped, but a sequence that has already returned rows still gets its end row -/
+def skipRow (row : Row) (inSeq : Bool) : Bool :=
+  row.tombstone && !(row.endSequence && inSeq)
+
 /-- `LineRows::next_row` called until it returns `Ok(None)`, all results in order.
-`row` is the register file *after* the `reset` that opens each `next_row` call.
+`row` is the register file *after* the `reset` that opens each `next_row` call, `inSeq` is
+`self.in_sequence` ("a row has been returned for the current sequence").
 * parse error: `Err(e)`, the input is emptied, so the next call returns `Ok(None)`;
 * `execute` error: `Err(e)`, the next call resets and goes on with the following instruction;
-* `Ok(true)` with a tombstoned row: reset and loop, nothing is returned (`hidden`);
-* `Ok(true)` otherwise: the row is returned, the next call resets. -/
-def traceLoop (h : Params) : Nat → Row → Bytes → List Ev
-  | 0, _, _ => [.stuck]
-  | fuel + 1, row, input =>
+* `Ok(true)` with a row to skip (`skipRow`): reset and loop, nothing is returned (`hidden`);
+* `Ok(true)` otherwise: `in_sequence = !end_sequence`, the row is returned, the next call resets. -/
+def traceLoop (h : Params) : Nat → Row → Bool → Bytes → List Ev
+  | 0, _, _, _ => [.stuck]
+  | fuel + 1, row, inSeq, input =>
     if input.isEmpty then []
     else match parseInstr h input with
       | .err e => [.err e]
@@ -387,15 +394,15 @@ def traceLoop (h : Params) : Nat → Row → Bytes → List Ev
       | .diverge => [.stuck]
       | .ok (ins, rest) =>
         match execute h row ins with
-        | (row, .err e) => .err e :: traceLoop h fuel (reset h row) rest
-        | (row, .noEmit) => traceLoop h fuel row rest
+        | (row, .err e) => .err e :: traceLoop h fuel (reset h row) inSeq rest
+        | (row, .noEmit) => traceLoop h fuel row inSeq rest
         | (row, .emit) =>
-          if row.tombstone then .hidden row :: traceLoop h fuel (reset h row) rest
-          else .row row :: traceLoop h fuel (reset h row) rest
+          if skipRow row inSeq then .hidden row :: traceLoop h fuel (reset h row) inSeq rest
+          else .row row :: traceLoop h fuel (reset h row) (!row.endSequence) rest
 
 /-- the trace of a whole program from the initial registers -/
 def trace (h : Params) (program : Bytes) : List Ev :=
-  traceLoop h (program.length + 1) (reset h (Row.new h)) program
+  traceLoop h (program.length + 1) (reset h (Row.new h)) false program
 
 /-- `LineRows::new(program)` (or `resume`) followed by `next_row` until `Ok(None)`: what the
 caller sees -/
@@ -414,37 +421,36 @@ inductive Next where
   deriving DecidableEq, Repr
 
 /-- the `loop` inside `LineRows::next_row`; returns the result and the new `(self.row,
-self.instructions.input)` -/
-def nextRowLoop (h : Params) : Nat → Row → Bytes → Next × Row × Bytes
-  | 0, row, input => (.stuck, row, input)
-  | fuel + 1, row, input =>
-    if input.isEmpty then (.none, row, input)
+self.in_sequence, self.instructions.input)` -/
+def nextRowLoop (h : Params) : Nat → Row → Bool → Bytes → Next × Row × Bool × Bytes
+  | 0, row, inSeq, input => (.stuck, row, inSeq, input)
+  | fuel + 1, row, inSeq, input =>
+    if input.isEmpty then (.none, row, inSeq, input)
     else match parseInstr h input with
-      | .err e => (.err e, row, [])                 -- `self.input.empty()`
-      | .panic _ => (.stuck, row, input)
-      | .diverge => (.stuck, row, input)
+      | .err e => (.err e, row, inSeq, [])                 -- `self.input.empty()`
+      | .panic _ => (.stuck, row, inSeq, input)
+      | .diverge => (.stuck, row, inSeq, input)
       | .ok (ins, rest) =>
         match execute h row ins with
-        | (row, .err e) => (.err e, row, rest)
-        | (row, .noEmit) => nextRowLoop h fuel row rest
+        | (row, .err e) => (.err e, row, inSeq, rest)
+        | (row, .noEmit) => nextRowLoop h fuel row inSeq rest
         | (row, .emit) =>
-          if row.tombstone then nextRowLoop h fuel (reset h row) rest
-          else (.row row, row, rest)
+          if skipRow row inSeq then nextRowLoop h fuel (reset h row) inSeq rest
+          else (.row row, row, !row.endSequence, rest)
 
 /-- `LineRows::next_row`: `self.row.reset(header)`, then the loop -/
-def nextRow (h : Params) (row : Row) (input : Bytes) : Next × Row × Bytes :=
-  nextRowLoop h (input.length + 1) (reset h row) input
+def nextRow (h : Params) (row : Row) (inSeq : Bool) (input : Bytes) : Next × Row × Bool × Bytes :=
+  nextRowLoop h (input.length + 1) (reset h row) inSeq input
 
 /-- the caller's loop: `next_row()` until `Ok(None)`, everything it returned -/
-def collect (h : Params) : Nat → Row → Bytes → List Ev
-  | 0, _, _ => [.stuck]
-  | fuel + 1, row, input =>
-    match nextRow h row input with
-    | (.none, _, _) => []
-    | (.stuck, _, _) => [.stuck]
-    | (.row r, row, input) => .row r :: collect h fuel row input
-    | (.err e, row, input) => .err e :: collect h fuel row input
-
+def collect (h : Params) : Nat → Row → Bool → Bytes → List Ev
+  | 0, _, _, _ => [.stuck]
+  | fuel + 1, row, inSeq, input =>
+    match nextRow h row inSeq input with
+    | (.none, _, _, _) => []
+    | (.stuck, _, _, _) => [.stuck]
+    | (.row r, row, inSeq, input) => .row r :: collect h fuel row inSeq input
+    | (.err e, row, inSeq, input) => .err e :: collect h fuel row inSeq input
 
 /-- `LineInstructions::next_instruction` until `Ok(None)` (`header.instructions()`); the first
 error ends the iteration (the input is emptied) -/
@@ -496,11 +502,11 @@ structure Seq where
   deriving DecidableEq, Repr
 
 /-- the loop of `IncompleteLineProgram::sequences`, fused with `next_row`'s loop.
-`seqInput` is `instructions` (the reader at the start of the current sequence),
-`startAddr` is `sequence_start_addr`. Any error ends the whole call (`?`). -/
-def seqLoop (h : Params) : Nat → Row → Bytes → Bytes → Option Nat → List Seq → Out (List Seq)
-  | 0, _, _, _, _, _ => .diverge
-  | fuel + 1, row, input, seqInput, startAddr, acc =>
+`inSeq` is `rows.in_sequence`, `seqInput` is `instructions` (the reader at the start of the
+current sequence), `startAddr` is `sequence_start_addr`. Any error ends the whole call (`?`). -/
+def seqLoop (h : Params) : Nat → Row → Bool → Bytes → Bytes → Option Nat → List Seq → Out (List Seq)
+  | 0, _, _, _, _, _, _ => .diverge
+  | fuel + 1, row, inSeq, input, seqInput, startAddr, acc =>
     if input.isEmpty then .ok acc.reverse
     else match parseInstr h input with
       | .err e => .err e
@@ -509,24 +515,24 @@ def seqLoop (h : Params) : Nat → Row → Bytes → Bytes → Option Nat → Li
       | .ok (ins, rest) =>
         match execute h row ins with
         | (_, .err e) => .err e
-        | (row, .noEmit) => seqLoop h fuel row rest seqInput startAddr acc
+        | (row, .noEmit) => seqLoop h fuel row inSeq rest seqInput startAddr acc
         | (row, .emit) =>
-          if row.tombstone then seqLoop h fuel (reset h row) rest seqInput startAddr acc
+          if skipRow row inSeq then seqLoop h fuel (reset h row) inSeq rest seqInput startAddr acc
           else if row.endSequence then
             -- `instructions.remove_trailing(&rows.instructions)`
             -- `start: sequence_start_addr.unwrap_or(sequence_end_addr)` (as fixed)
             let s : Seq := { start := startAddr.getD row.address, «end» := row.address,
                              instructions := seqInput.take (seqInput.length - rest.length) }
-            seqLoop h fuel (reset h row) rest rest none (s :: acc)
+            seqLoop h fuel (reset h row) false rest rest none (s :: acc)
           else
             let startAddr := match startAddr with
               | none => some row.address
               | some a => some a
-            seqLoop h fuel (reset h row) rest seqInput startAddr acc
+            seqLoop h fuel (reset h row) true rest seqInput startAddr acc
 
 /-- `IncompleteLineProgram::sequences` -/
 def sequences (h : Params) (program : Bytes) : Out (List Seq) :=
-  seqLoop h (program.length + 1) (reset h (Row.new h)) program program none []
+  seqLoop h (program.length + 1) (reset h (Row.new h)) false program program none []
 
 /-- `CompleteLineProgram::resume_from(sequence)` followed by `next_row` until `Ok(None)` -/
 def resume (h : Params) (s : Seq) : List Ev := run h s.instructions
